@@ -185,9 +185,12 @@ Definition he_paths (tbl : list he_entry) : list string := map he_path tbl.
 
 Definition he_mem (s : string) (l : list string) : bool := existsb (String.eqb s) l.
 
-(* the required Go paths that the table does not mention *)
+(* what a table covers: the paths it writes and the pointers whose presence it encodes *)
+Definition he_covered (tbl : list he_entry) : list string := he_paths tbl ++ map he_guard tbl.
+
+(* the required Go paths that the table does not cover *)
 Definition he_missing (tbl : list he_entry) (required : list string) : list string :=
-  filter (fun r => negb (he_mem r (he_paths tbl))) required.
+  filter (fun r => negb (he_mem r (he_covered tbl))) required.
 
 (* does mutating the Go path [p] change the hashed string, according to the table?
    [lazy_empty]: the lazily filled field is currently "" (then the result of the lazy method, written
@@ -205,7 +208,7 @@ Definition he_binds (tbl : list he_entry) (lazy_empty : bool) (p : string) : boo
 (* C29: generator, parent, round, seed, transactions, outputs, resulting state, magic block *)
 Definition C29_required : list string :=
   ["MinerID"; "PrevHash"; "Round"; "RoundRandomSeed"; "Txns[].Hash"; "Txns[].OutputHash";
-   "ClientStateHash"; "MagicBlock.Hash"].
+   "ClientStateHash"; "MagicBlock"].
 (* C30: time, nonce, sender, recipient, value, data, fee, type *)
 Definition C30_required : list string :=
   ["CreationDate"; "Nonce"; "ClientID"; "ToClientID"; "Value"; "TransactionData"; "Fee";
